@@ -19,6 +19,7 @@ macro "ns_tac" : tactic => `(tactic| (splits <;> simp_all))
 /-! ### functions that do not touch `nextSerial` -/
 
 @[simp] theorem emit_ns' (s : State) (e : String) : (s.emit e).nextSerial = s.nextSerial := rfl
+@[simp] theorem emitEv_ns' (s : State) (k : EvKind) (r : String) : (s.emitEv k r).nextSerial = s.nextSerial := rfl
 @[simp] theorem emitCaller_ns' (s : State) (c : Nat) (e b : String) : (s.emitCaller c e b).nextSerial = s.nextSerial := rfl
 @[simp] theorem storeFatal_ns (s : State) (t : String) : (storeFatal s t).nextSerial = s.nextSerial := by unfold storeFatal; ns_tac
 @[simp] theorem cancelFlows_ns (s : State) (e : CErr) : (cancelFlows s e).nextSerial = s.nextSerial := by unfold cancelFlows; ns_tac
@@ -107,7 +108,7 @@ theorem foldl_emit_ns {α : Type} (l : List α) (f : α → String) (s : State) 
 @[simp] theorem initTailEvents_ns (s : State) (ph : Phase) (st : String) : (initTailEvents s ph st).nextSerial = s.nextSerial := by
   unfold initTailEvents
   dsimp only
-  rw [emit_ns', foldl_emit_ns]
+  rw [emitEv_ns', foldl_emit_ns]
   split <;> rfl
 @[simp] theorem disarm_ns (s : State) : (disarmShutdownTimers s).nextSerial = s.nextSerial := rfl
 @[simp] theorem resetTail_ns (s : State) (n : Nat) : (resetTail s n).nextSerial = s.nextSerial := by unfold resetTail; ns_tac
